@@ -242,6 +242,47 @@ func runC04(c *Ctx) {
 			c.Guarded(fmt.Sprintf("overlord/state.(*State).Unlock#clear-modified#%d", nClear), unlock, st, []Clause{{okCP}}, nil)
 		}
 	}
+	// the checkpoint-and-clear part may live in a private helper that Unlock hands the checkpoint data to
+	var cpHelper *ssa.Function
+	var cpHelperCall ssa.CallInstruction
+	if nClear == 0 {
+		for _, b := range unlock.Blocks {
+			for _, in := range b.Instrs {
+				cc, ok := in.(ssa.CallInstruction)
+				if !ok {
+					continue
+				}
+				h := cc.Common().StaticCallee()
+				if h == nil || h.Pkg != unlock.Pkg || len(StoresToField(h, fModified)) == 0 || !P.PrivateHelperOf(h, map[string]bool{"overlord/state.(*State).Unlock": true}) {
+					continue
+				}
+				di := -1
+				for i, a := range cc.Common().Args {
+					if VRes(0, RecvWhere(ToFn(cpData), VParam(unlock, 0)))(a) {
+						di = i
+					}
+				}
+				if di < 0 || !VParam(unlock, 0)(cc.Common().Args[0]) {
+					continue
+				}
+				cpHelper, cpHelperCall = h, cc
+				okH := NilRes("backend.Checkpoint(data)==nil", 0, CallWhere(ToFn(checkpoint), 0, VParam(h, di)))
+				for _, st := range StoresToField(h, fModified) {
+					if bv, ok := ConstBool(st.Val); ok && !bv {
+						nClear++
+						c.Guarded(fmt.Sprintf("overlord/state.(*State).Unlock#clear-modified#%d", nClear), h, st, []Clause{{okH}}, nil)
+					}
+				}
+				// the helper comes back only after a successful checkpoint (or panics)
+				hr := 0
+				for _, ret := range ReturnsOf(h) {
+					hr++
+					r := (ReachQ{Fn: h, Sink: SinkIs(ret), CutEdge: AtomEdges(okH), CutInstr: SinkCall(P.FuncObj("logger.Panicf"))}).Run()
+					c.Check(!r.Found, fmt.Sprintf("overlord/state.(*State).Unlock#helper-return#%d", hr), ret.Pos(), "the checkpoint helper returns only after a successful checkpoint", "the checkpoint helper of Unlock can return without a successful checkpoint: "+P.PathString(r.Path))
+				}
+			}
+		}
+	}
 	if nClear == 0 {
 		c.Undecided("overlord/state.(*State).Unlock#clear-modified", unlock.Pos(), "Unlock no longer clears the modified flag itself")
 	}
@@ -251,7 +292,7 @@ func runC04(c *Ctx) {
 			continue
 		}
 		nm := SSAFuncName(st.Parent())
-		if nm != "overlord/state.(*State).Unlock" && nm != "overlord/state.ReadState" {
+		if nm != "overlord/state.(*State).Unlock" && nm != "overlord/state.ReadState" && !P.PrivateHelperOf(st.Parent(), map[string]bool{"overlord/state.(*State).Unlock": true}) {
 			bad += " " + nm + "@" + P.Pos(st.Pos())
 		}
 	}
@@ -267,7 +308,12 @@ func runC04(c *Ctx) {
 	nret := 0
 	for _, ret := range ReturnsOf(unlock) {
 		nret++
-		q := ReachQ{Fn: unlock, Sink: SinkIs(ret), CutEdge: AtomEdges(notDirty, noBackend, okCP), CutInstr: SinkCall(P.FuncObj("logger.Panicf"))}
+		cutI := SinkCall(P.FuncObj("logger.Panicf"))
+		if cpHelper != nil {
+			panicf := cutI
+			cutI = func(in ssa.Instruction) bool { return panicf(in) || in == ssa.Instruction(cpHelperCall.(ssa.Instruction)) }
+		}
+		q := ReachQ{Fn: unlock, Sink: SinkIs(ret), CutEdge: AtomEdges(notDirty, noBackend, okCP), CutInstr: cutI}
 		r := q.Run()
 		c.Check(!r.Found, fmt.Sprintf("overlord/state.(*State).Unlock#return#%d", nret), ret.Pos(), "Unlock returns only when nothing was modified, there is no backend, or the checkpoint succeeded", "Unlock can return with modifications pending and no successful checkpoint: "+P.PathString(r.Path))
 	}
